@@ -182,7 +182,56 @@ Section Statements.
     (forall q m, p <= q -> stream_msg all s q = Ok m -> t <= time_of m).
   Proof. intros Hi. exact (lookup_time_first_not_before time_of all s Hi t). Qed.
 
-  (* index lookup, file order *)
+  (* binary_search_by_msg_index has four branches (sort_by_time x filters_active).  Each is pinned under exactly the
+     sortedness facts it relies on, for ANY results the contract of binary_search allows ([bsA] on all_msgs,
+     [bsF] on filtered_msgs):
+       file order + filters     : msg.index ascending along all_msgs  AND  filtered_msgs ascending (from [inv])
+       file order, no filters   : msg.index ascending along all_msgs
+       time sorted + filters    : filtered_msgs ascending (from [inv]) only - nothing about msg.index or the times
+       time sorted, no filters  : nothing *)
+  Theorem C16_lookup_index_branch_file_order_filtered (all : list M) (s : sctx M) bsA bsF idx :
+    inv all s -> keeps_contract_on M bsA -> keeps_contract bsF -> index_increasing index_of all ->
+    match lookup_index_with index_of bsA bsF all s idx with
+    | Some p =>
+        exists ai m, nthN all ai = Some m /\ index_of m = idx /\
+          p <= stream_len s (len all) /\
+          (forall q a, q < p -> all_pos all s q = Some a -> a < ai) /\
+          (forall q a, p <= q -> all_pos all s q = Some a -> ai <= a)
+    | None => forall j m, nthN all j = Some m -> index_of m <> idx
+    end.
+  Proof. intros Hi. exact (lookup_index_with_first_not_before index_of all s Hi bsA bsF idx). Qed.
+
+  Theorem C16_lookup_index_branch_file_order_unfiltered (all : list M) (s : sctx M) bsA bsF idx :
+    keeps_contract_on M bsA -> index_increasing index_of all -> s_filters_active s = false ->
+    match lookup_index_with index_of bsA bsF all s idx with
+    | Some p => exists m, nthN all p = Some m /\ index_of m = idx
+    | None => forall j m, nthN all j = Some m -> index_of m <> idx
+    end.
+  Proof. exact (lookup_index_unfiltered_exact index_of all s bsA bsF idx). Qed.
+
+  Theorem C16_lookup_index_branch_time_sorted_filtered (all : list M) (s : sctx M) bsF idx :
+    inv all s -> keeps_contract bsF ->
+    match lookup_index_sorted_with index_of bsF all s idx with
+    | Some p =>
+        exists ai m, nthN all ai = Some m /\ index_of m = idx /\
+          (forall j m', j < ai -> nthN all j = Some m' -> index_of m' <> idx) /\
+          p <= stream_len s (len all) /\
+          (forall q a, q < p -> all_pos all s q = Some a -> a < ai) /\
+          (forall q a, p <= q -> all_pos all s q = Some a -> ai <= a)
+    | None => forall j m, nthN all j = Some m -> index_of m <> idx
+    end.
+  Proof. intros Hi. exact (lookup_index_sorted_with_first_not_before index_of all s Hi bsF idx). Qed.
+
+  Theorem C16_lookup_index_branch_time_sorted_unfiltered (all : list M) (s : sctx M) bsF idx :
+    s_filters_active s = false ->
+    match lookup_index_sorted_with index_of bsF all s idx with
+    | Some p => exists m, nthN all p = Some m /\ index_of m = idx /\
+                          (forall j m', j < p -> nthN all j = Some m' -> index_of m' <> idx)
+    | None => forall j m, nthN all j = Some m -> index_of m <> idx
+    end.
+  Proof. exact (lookup_index_sorted_unfiltered_exact index_of all s bsF idx). Qed.
+
+  (* the code's instances (std's algorithm for both searches): index lookup, file order *)
   Theorem C16_lookup_index_first_not_before (all : list M) (s : sctx M) idx :
     inv all s -> index_increasing index_of all ->
     match lookup_index index_of all s idx with
@@ -230,6 +279,12 @@ Proof. exact lookup_index_prefix_unfiltered_returned_0. Qed.
 Theorem C16_before_fix_lookup_index_sorted_returned_last_of_equal :
   lookup_index_sorted_prefix fst snd t_all t_sf 1 = Some 2 /\ lookup_index_sorted snd t_all t_sf 1 = Some 0.
 Proof. exact lookup_index_sorted_prefix_returned_last_of_equal. Qed.
+(* why the time-sorted branch must not search the stream by msg.index (as the file-order branch may): in time order
+   msg.index is not ascending along the stream *)
+Theorem C16_search_by_index_in_time_order_is_wrong :
+  lookup_index_sorted_by_index snd r_all r_s 1 = Some 1 /\ lookup_index_sorted snd r_all r_s 1 = Some 0 /\
+  lookup_index_sorted_by_index snd r_all r_s 2 = Some 1 /\ lookup_index_sorted snd r_all r_s 2 = Some 2.
+Proof. exact search_by_index_in_time_order_is_wrong. Qed.
 (* a query on a log that is still being parsed: a tick without new messages ended it (before the repair) *)
 Theorem C16_before_fix_query_ended_while_parsing :
   let s := new_ctx 1 false true (cfset [(0, 1, 1)]) 0 5 in
@@ -297,6 +352,11 @@ Print Assumptions C16_std_bsearch_meets_contract.
 Print Assumptions C16_std_bsearch_returns_last_equal.
 Print Assumptions C16_stream_pos_first_not_before.
 Print Assumptions C16_lookup_first_not_before.
+Print Assumptions C16_lookup_index_branch_file_order_filtered.
+Print Assumptions C16_lookup_index_branch_file_order_unfiltered.
+Print Assumptions C16_lookup_index_branch_time_sorted_filtered.
+Print Assumptions C16_lookup_index_branch_time_sorted_unfiltered.
+Print Assumptions C16_search_by_index_in_time_order_is_wrong.
 Print Assumptions C16_lookup_index_first_not_before.
 Print Assumptions C16_lookup_index_sorted_first_not_before.
 Print Assumptions C16_before_fix_search_skipped_a_position.
